@@ -245,6 +245,55 @@ def gen_namespace(rng, nsname, thorough, deps, want_blocks=True, main=True, gobj
                 block(tl, fn['file'])
         if rng.random() < 0.4:
             D({'k': 'function', 'name': '%s_%s_count_all' % (p, sr), 'ret': ['basic', 'int'], 'params': []}, f)
+    # ---- a chain of callbacks that cannot be introspected: A takes a va_list, B takes A, and
+    # functions/methods take A or B.  Introspectability has to propagate along the chain
+    # whatever the order in which the typedefs and their users are met.
+    if main and rng.random() < 0.3:
+        fa, fb = p + '-log-a.h', p + '-log-b.h'
+        files.extend([fa, fb])
+        order_before.append([fa, fb])
+        for a in apis:
+            order_before.append([fa, a])
+            order_before.append([fb, a])
+        D({'k': 'typedef_callback', 'name': P + 'LogFunc', 'ret': ['void'], 'pointer': True,
+           'params': [['message', STRING_IN], ['args', ['named', 'va_list']], ['user_data', GPOINTER]]}, fa)
+        D({'k': 'typedef_callback', 'name': P + 'LogHook', 'ret': ['void'], 'pointer': True,
+           'params': [['func', ['named', P + 'LogFunc']], ['data', GPOINTER]]}, fb)
+        # without a (scope) on their callback-typed parameter B and C would be non-introspectable
+        # for that reason alone, whatever the order
+        comments.append(['/**\n * %sLogHook:\n * @func: (scope call): the function\n * @data: data\n *\n * A hook.\n */' % P,
+                         fb, lines.take(fb, 8)])
+        if rng.random() < 0.5:
+            # one level deeper: C takes B
+            fc = p + '-log-c.h'
+            files.append(fc)
+            order_before.append([fb, fc])
+            for a in apis:
+                order_before.append([fc, a])
+            D({'k': 'typedef_callback', 'name': P + 'LogChain', 'ret': ['void'], 'pointer': True,
+               'params': [['hook', ['named', P + 'LogHook']], ['data', GPOINTER]]}, fc)
+            comments.append(['/**\n * %sLogChain:\n * @hook: (scope call): the hook\n * @data: data\n *\n * A chain.\n */' % P,
+                             fc, lines.take(fc, 8)])
+            fn = D({'k': 'function', 'name': '%s_set_log_chain' % p, 'ret': ['void'],
+                    'params': [['chain', ['named', P + 'LogChain']], ['data', GPOINTER]]}, rng.choice(apis))
+            if want_blocks:
+                block(['%s:' % fn['name'], '@chain: (scope call): the chain', '@data: data', '', 'Sets it.'], fn['file'])
+        fn = D({'k': 'function', 'name': '%s_set_log_func' % p, 'ret': ['void'],
+                'params': [['func', ['named', P + 'LogFunc']], ['user_data', GPOINTER]]}, rng.choice(apis))
+        if want_blocks:
+            block(['%s:' % fn['name'], '@func: (scope call): the function', '@user_data: data', '', 'Sets it.'], fn['file'])
+        fn = D({'k': 'function', 'name': '%s_set_log_hook' % p, 'ret': ['void'],
+                'params': [['hook', ['named', P + 'LogHook']], ['data', GPOINTER]]}, rng.choice(apis))
+        if want_blocks:
+            block(['%s:' % fn['name'], '@hook: (scope call): the hook', '@data: data', '', 'Sets it.'], fn['file'])
+        if records:
+            r0 = rng.choice(records)
+            fn = D({'k': 'function', 'name': '%s_%s_set_sink' % (p, snake(r0)), 'ret': ['void'],
+                    'params': [['self', ['ptr', ['named', P + r0]]], ['sink', ['named', P + rng.choice(['LogFunc', 'LogHook'])]],
+                               ['user_data', GPOINTER]]}, rng.choice(apis))
+            if want_blocks:
+                block(['%s:' % fn['name'], '@self: the object', '@sink: (scope call): the sink', '@user_data: data', '', 'Sets it.'], fn['file'])
+
     # ---- functions with out parameters, arrays, containers, closures, (type) overrides, rename-to, macros
     INTP = ['ptr', ['basic', 'int']]
     for r in records:
